@@ -52,3 +52,15 @@ Theorem C18_check_is_base :
                     || leq (snd (fst r)) (lit "FS")) dispatch_table = true.
 Proof. vm_compute. reflexivity. Qed.
 Print Assumptions C18_check_is_base.
+
+(* table produced by an ast scan of /repo's source on every run: every public data or metadata
+   method defined in a filesystem class either calls check()/validatepath() (directly or through a
+   private method of the class that does) or only calls methods on self/super *)
+Theorem C18_every_method_checks :
+  forallb (fun r => snd (fst r) || snd r) check_table = true.
+Proof. vm_compute. reflexivity. Qed.
+Print Assumptions C18_every_method_checks.
+
+Theorem C18_check_table_nonvacuous : 100 <=? List.length check_table = true.
+Proof. vm_compute. reflexivity. Qed.
+Print Assumptions C18_check_table_nonvacuous.
